@@ -41,6 +41,11 @@ OPS = [
     ("Some->None", r"\bSome\(([a-z_\.]+)\)(?=[,;)\s]*$)", "None"),
     ("sender->contract", r"\binfo\.sender\b", "env.contract.address"),
     ("const+1", r"(?<=^)(.*\bconst\b[^=]*=\s*)(\d+)(\w*;.*)$", None),
+    ("lt->gt", r" < ", " > "), ("gt->lt", r" > ", " < "), ("le->ge", r" <= ", " >= "), ("ge->le", r" >= ", " <= "),
+    ("drop+1", r" \+ 1\b", ""), ("drop-1", r" - 1\b", ""),
+    (".min->.max", r"\.min\(", ".max("), (".max->.min", r"\.max\(", ".min("),
+    ("swap-args", r"(\b[\w:]+\()(&?[\w\.]+(?:\[\d\])?(?:\.\w+)*), (&?[\w\.]+(?:\[\d\])?(?:\.\w+)*)\)", r"\1\3, \2)"),
+    ("ok->err-unwrap", r"\)\?;", ").ok();"),
 ]
 # symmetric identifier pairs: one occurrence of one name replaced by its twin
 SWAPS = [("offer_pool", "ask_pool"), ("offer_decimal", "ask_decimal"), ("return_amount", "spread_amount"), ("commission_amount", "spread_amount"),
@@ -50,7 +55,7 @@ SWAPS = [("offer_pool", "ask_pool"), ("offer_decimal", "ask_decimal"), ("return_
 for a_, b_ in SWAPS:
     OPS.append(("swap:%s->%s" % (a_, b_), r"(?<![\w.])%s\b(?!\s*:)" % a_, b_))
     OPS.append(("swap:%s->%s" % (b_, a_), r"(?<![\w.])%s\b(?!\s*:)" % b_, a_))
-DELETE_STMT = re.compile(r"^\s*[\w\.:&\(\)\[\], ]*\b(assert_\w+|ensure\w*)\s*\(.*\)\?;\s*$")
+DELETE_STMT = re.compile(r"^\s*(?!let\b|return\b|pub\b|use\b|const\b)[\w\.:&\(\)\[\]<>, ]*\(.*\)\??;\s*$")
 
 
 def production_lines(path):
@@ -63,7 +68,7 @@ def production_lines(path):
     pending_test = False
     for i, l in enumerate(src):
         st = l.strip()
-        if st.startswith("#[cfg(test)]"):
+        if st.startswith("#[cfg(test)]") or st == "#[test]":
             pending_test = True
         opens, closes = l.count("{"), l.count("}")
         if pending_test and "{" in l and skip_depth is None:
@@ -96,13 +101,43 @@ def gen():
                     if new == l:
                         continue
                     # skip generics / lifetimes / strings
-                    if name in ("lt->le", "gt->ge") and re.search(r"[A-Za-z_]<|->|=>", code[max(0, m.start() - 2):m.end() + 2]):
+                    if name in ("lt->le", "gt->ge", "lt->gt", "gt->lt") and re.search(r"[A-Za-z_]<|->|=>", code[max(0, m.start() - 2):m.end() + 2]):
                         continue
                     if code.count('"') >= 2 and code.find('"') < m.start() < code.rfind('"'):
                         continue
                     muts.append({"file": path, "line": i + 1, "op": name, "before": l.strip(), "after": new.strip(), "col": m.start()})
             if DELETE_STMT.match(code):
                 muts.append({"file": path, "line": i + 1, "op": "delete-check", "before": l.strip(), "after": "", "col": 0})
+        prod = dict(lines)
+        idxs = sorted(prod)
+        # multi-line expression statements: `x.push(\n ... \n));` / `ITEM.save(\n..\n)?;`
+        for i in idxs:
+            l = prod[i]
+            st = l.strip()
+            if re.match(r"^(let|return|pub|fn|if|else|for|while|match|use|const|impl|struct|enum|loop|\}|\{|//|\.|\))", st) or st.endswith(";") or st.endswith(","):
+                continue
+            if not re.match(r"^[\w\.:&]+\(", st) or not (st.endswith("(") or st.endswith("{") or st.endswith("[")):
+                continue
+            prev = src[i - 1].strip() if i > 0 else ""
+            if prev and not (prev.endswith(";") or prev.endswith("{") or prev.endswith("}") or prev.startswith("//")):
+                continue
+            depth, j = 0, i
+            while j < len(src) and j < i + 40:
+                depth += src[j].count("(") + src[j].count("{") + src[j].count("[") - src[j].count(")") - src[j].count("}") - src[j].count("]")
+                if depth <= 0:
+                    break
+                j += 1
+            if j > i and j < len(src) and depth == 0 and src[j].strip().endswith(";") and all(k in prod or not src[k].strip() or src[k].strip().startswith("//") for k in range(i, j + 1)):
+                muts.append({"file": path, "line": i + 1, "line2": j + 1, "op": "delete-stmt-ml", "before": st[:80], "after": "", "col": 0})
+        # adjacent fields of a struct literal / call arguments on their own lines: swap the two value expressions
+        for i in idxs:
+            if i + 1 not in prod:
+                continue
+            m1 = re.match(r"^(\s*)(\w+): (.+),\s*$", prod[i])
+            m2 = re.match(r"^(\s*)(\w+): (.+),\s*$", prod[i + 1])
+            if m1 and m2 and m1.group(1) == m2.group(1) and m1.group(3) != m2.group(3) and "{" not in m1.group(3) + m2.group(3) and "(" not in (m1.group(3) + m2.group(3)).replace("()", ""):
+                muts.append({"file": path, "line": i + 1, "line2": i + 2, "op": "swap-fields", "before": prod[i].strip() + " " + prod[i + 1].strip(),
+                             "after": "%s: %s, %s: %s," % (m1.group(2), m2.group(3), m2.group(2), m1.group(3)), "col": 0})
     # stable ids
     for m in muts:
         h = hashlib.sha1(("%s:%d:%s:%d:%s" % (m["file"], m["line"], m["op"], m["col"], m["before"])).encode()).hexdigest()[:8]
@@ -126,7 +161,17 @@ def apply_mutant(wt, m):
     p = os.path.join(wt, m["file"])
     src = open(p).read().split("\n")
     l = src[m["line"] - 1]
-    if m["op"] == "delete-check":
+    if m["op"] == "delete-stmt-ml":
+        for k in range(m["line"] - 1, m["line2"]):
+            src[k] = ""
+    elif m["op"] == "swap-fields":
+        m1 = re.match(r"^(\s*)(\w+): (.+),\s*$", src[m["line"] - 1])
+        m2 = re.match(r"^(\s*)(\w+): (.+),\s*$", src[m["line2"] - 1])
+        if not (m1 and m2):
+            return False
+        src[m["line"] - 1] = "%s%s: %s," % (m1.group(1), m1.group(2), m2.group(3))
+        src[m["line2"] - 1] = "%s%s: %s," % (m2.group(1), m2.group(2), m1.group(3))
+    elif m["op"] == "delete-check":
         src[m["line"] - 1] = ""
     else:
         name, rx, rep = [o for o in OPS if o[0] == m["op"]][0]
@@ -157,7 +202,7 @@ def worktrees(n, prefix="MUT"):
         wt = "/tmp/wt/%s%d" % (prefix, k)
         if not os.path.isdir(wt):
             subprocess.run("git -C /repo worktree add -q --detach %s HEAD" % wt, shell=True, check=True)
-            src = [d for d in ("/tmp/wt/RF31/target", "/tmp/wt/BN1/target") if os.path.isdir(d)]
+            src = [d for d in ("/tmp/wt/RF39/target", "/tmp/wt/BN9/target", "/tmp/wt/C01/target") if os.path.isdir(d)]
             if src:
                 subprocess.run("cp -a %s %s/target" % (src[0], wt), shell=True)
         wts.append(wt)
@@ -255,6 +300,11 @@ def report():
     print(Counter(m.get("status") for m in muts))
     surv = [m for m in muts if m.get("status") == "survived"]
     und = [m for m in surv if m.get("fired") == []]
+    tp = os.path.join(OUT, "TRIAGE.json")
+    tri = json.load(open(tp)) if os.path.exists(tp) else {}
+    for m in und:
+        if m["id"] in tri:
+            m["triage"] = tri[m["id"]]["verdict"] + ": " + tri[m["id"]]["reason"]
     print("survived the tests: %d; reported by some check: %d; reported by none: %d" % (len(surv), len([m for m in surv if m.get("fired")]), len(und)))
     for m in und:
         print("%s %s:%d %-18s %s  ==>  %s  [%s]" % (m["id"], m["file"].split("/")[-3] + "/" + m["file"].split("/")[-1], m["line"], m["op"], m["before"][:70], m["after"][:70], m.get("triage", "?")))
@@ -267,6 +317,13 @@ if __name__ == "__main__":
     elif cmd == "test":
         test(int(sys.argv[2]) if len(sys.argv) > 2 else 8)
     elif cmd == "check":
+        check(int(sys.argv[2]) if len(sys.argv) > 2 else 3)
+    elif cmd == "recheck":
+        ms = load()
+        for m_ in ms:
+            if m_.get("status") == "survived" and m_.get("fired") == []:
+                del m_["fired"]
+        save(ms)
         check(int(sys.argv[2]) if len(sys.argv) > 2 else 3)
     elif cmd == "report":
         report()
